@@ -489,6 +489,12 @@ func (m *{{ .Name }}) MarshalJSON() ([]byte, error) {
 		if err != nil {
 			return nil, err
 		}
+		if len(key) == 0 || key[0] != '"' {
+			// An object key is a string, whatever the key of the map is.
+			if key, err = json.Marshal(string(key)); err != nil {
+				return nil, err
+			}
+		}
 		buf.Write(key)
 		buf.WriteRune(':')
 
